@@ -6,6 +6,7 @@ import (
 	"encoding/hex"
 	"encoding/json"
 	"fmt"
+	"strings"
 	"sync"
 
 	"kmipverif/simnet"
@@ -33,6 +34,9 @@ type StreamSc struct {
 	// Twin: a second, independent stream of the same process carries the decodable frames in reverse order to a
 	// receiver of its own at the same time (streams share nothing)
 	Twin bool `json:"twin,omitempty"`
+	// Duplex: while the receiver is at work another task sends messages of its own on the very same Stream (the way
+	// the library's connections use one: a read loop and a write loop). What is sent must not touch what is received
+	Duplex bool `json:"duplex,omitempty"`
 }
 
 func genStreamSc(g *simrt.Tape, tier string) any {
@@ -48,6 +52,7 @@ func genStreamSc(g *simrt.Tape, tier string) any {
 		sc.Frames = append(sc.Frames, hex.EncodeToString(f))
 	}
 	sc.Twin = g.Draw(4) == 0
+	sc.Duplex = g.Draw(4) == 0
 	sc.Chunk = []int{simnet.ChunkRandom, simnet.ChunkRandom, simnet.ChunkByte, simnet.ChunkMax}[g.Draw(4)]
 	sc.DataEOF = g.Draw(3) == 1
 	switch g.Draw(4) {
@@ -125,6 +130,7 @@ func execStream(x *X, scAny any) {
 		delivered = sc.Truncate
 	}
 
+	talkerDone := !(sc.Duplex && sc.Live)
 	a, b := simnet.Pipe(s, "st", simnet.EP{Capacity: sc.Capacity, WriteYield: true}, simnet.EP{Chunk: sc.Chunk, DataEOF: sc.DataEOF})
 	if sc.Live {
 		s.Spawn("sender", func() {
@@ -145,6 +151,7 @@ func execStream(x *X, scAny any) {
 					return
 				}
 			}
+			s.WaitUntil("talker-done", func() bool { return talkerDone })
 			_ = a.Close()
 		})
 	} else {
@@ -186,8 +193,21 @@ func execStream(x *X, scAny any) {
 	}
 	var recs []recvRec
 	rxDone := false
+	rst := ttlv.NewStream(b, sc.Max)
+	if sc.Duplex && sc.Live {
+		// (only while the other side is there: writing to a peer that has closed is a transport fault of its own,
+		// after which a real connection may drop what it has not delivered yet; the sender closes once the talker is done)
+		s.Spawn("talker", func() {
+			defer func() { talkerDone = true }()
+			for k := 0; k < 2*len(frames)+2; k++ {
+				out := ttlv.Value{Tag: 0x42007B, Value: ttlv.Struct{{Tag: 0x420069, Value: int32(k)}, {Tag: 0x420055, Value: fmt.Sprintf("from the receiving side %d %s", k, strings.Repeat("z", 17*k%90))}}}
+				_ = rst.Send(out) // (the other side may be gone already: that is its business)
+				s.YieldNow("talker")
+			}
+		})
+	}
 	s.Spawn("receiver", func() {
-		st := ttlv.NewStream(b, sc.Max)
+		st := rst
 		for i := 0; i < len(frames)+3; i++ {
 			var v ttlv.Value
 			err := st.Recv(&v)
